@@ -154,7 +154,7 @@ def run(ctx):
         tcfg = ctx.write_cfg("Trace_LeakTable_%d" % P, TRACE % {"spec": "TSpec", "P": P, "tail": "INVARIANT TInv\nPOSTCONDITION Accepted"})
         pcfg = ctx.write_cfg("Predict_LeakTable_%d" % P, TRACE % {"spec": "PSpec", "P": P, "tail": "INVARIANT Predict"})
         for sep in (0, 1):
-            conform(ctx, "%s-sep%d" % (lab, sep), execs, lambda s, l, P=P, sep=sep: ctx.run([exe, s, l, str(P), str(sep), str(sep)], timeout=600),
+            conform(ctx, "%s-sep%d" % (lab, sep), execs, lambda s, l, P=P, sep=sep: ctx.run([exe, s, l, str(P), str(sep), str(sep)], timeout=(120 if ctx.quick else 600)),
                     "Trace_LeakTable", tcfg, pcfg, key_fn, meta={"P": P, "sep": sep})
         total_exec += 2 * len(execs)
         ctx.evaluations += 2 * sum(len(e) for e in execs)
@@ -171,7 +171,7 @@ def run(ctx):
     execs += [many_leaks_exec(ctx.rng, n) for n in ([13, 20, 45] if quick else [5, 12, 14, 16, 20, 30, 45, 70, 120, 180])]
     ctx.sample({"source": "seeded random driver", "execution": ["\t".join(map(str, l)) for l in execs[0][:12]]})
     for sep in (0, 1):
-        conform(ctx, "random-sep%d" % sep, execs, lambda s, l, sep=sep: ctx.run([exe, s, l, str(P), str(sep), str(sep)], timeout=600),
+        conform(ctx, "random-sep%d" % sep, execs, lambda s, l, sep=sep: ctx.run([exe, s, l, str(P), str(sep), str(sep)], timeout=(120 if ctx.quick else 600)),
                 "Trace_LeakTable", tcfg, pcfg, key_fn, tlc_timeout=1800, meta={"P": P, "sep": sep})
     ctx.evaluations += 2 * sum(len(e) for e in execs)
     for e in execs:
